@@ -14,10 +14,11 @@ Local Open Scope Z_scope.
 (** [z as f64] for 0 <= z < 2^53 (exact) *)
 Definition z2f (z : Z) : float := PrimFloat.of_uint63 (Uint63.of_Z z).
 
-(** [observed_bps as f64] for a u64: values of 2^53 and above are represented by 2^53 — the only
-    use is [.min(4.0 * baseline)] with [4.0 * baseline <= 8e8], which any such value loses *)
+(** [observed_bps as f64] for a u64: values of 2^53 and above (where the conversion rounds) are
+    represented by 2^52 — the only use is [.min(4.0 * baseline)] with [4.0 * baseline <= 8e8],
+    which any value above 8e8 loses *)
 Definition u64_to_f64 (z : Z) : float :=
-  if z <? 9007199254740992 then z2f z else z2f 9007199254740992.
+  if z <? 9007199254740992 then z2f z else z2f 4503599627370496.
 
 (** Rust [f64::min] / [f64::max]: a NaN operand is ignored *)
 Definition fmin (a b : float) : float :=
